@@ -64,15 +64,16 @@ fn run_body(cfg: &SwarmCfg, seed: u64, replay: Option<&[Step]>) -> RunOutcome {
 
 fn drive(w: &mut World, replay: Option<&[Step]>) -> VResult<()> {
     crate::scenarios::setup(w)?;
+    let mut n = 0u32;
     match replay {
         Some(actions) => {
             for s in actions {
+                n = n.max(s.n);
                 w.trace.push(s.clone());
                 w.exec(s)?;
             }
         }
         None => {
-            let mut n = 0u32;
             let steps = w.cfg.steps;
             while n < steps {
                 n += 1;
@@ -81,34 +82,31 @@ fn drive(w: &mut World, replay: Option<&[Step]>) -> VResult<()> {
                 w.trace.push(s.clone());
                 w.exec(&s)?;
             }
-            // heal phase + bounded liveness
-            let mut stage = 0u32;
-            let budget = 2 * (outstanding(w) as u32) + 8 * w.parties.len() as u32 + 40;
-            let mut used = 0u32;
-            while let Some(a) = Gen::heal(w, &mut stage) {
-                n += 1;
-                used += 1;
-                if used > budget {
-                    return Err(Violation::new(
-                        &w.cfg.property,
-                        "bounded-liveness",
-                        "heal-not-converging".into(),
-                        format!("after faults stopped the group did not converge within {budget} deliveries"),
-                    ));
-                }
-                let s = Step { n, a };
-                w.trace.push(s.clone());
-                let done = w.exec(&s)?;
-                if !done {
-                    // an action the heal planner believes enabled was skipped: planner / model mismatch
-                    return Err(Violation::new(
-                        "HARNESS",
-                        "heal",
-                        "heal-skip".into(),
-                        format!("heal action {:?} was not enabled", s.a),
-                    ));
-                }
-            }
+        }
+    }
+    // Heal phase + bounded liveness. The heal planner is a pure function of the world state (no PRNG), so it
+    // is not part of the recorded action list: a replay runs it again after the recorded actions.
+    let mut stage = 0u32;
+    let budget = 2 * (outstanding(w) as u32) + 8 * w.parties.len() as u32 + 40;
+    let mut used = 0u32;
+    n += 1000;
+    while let Some(a) = Gen::heal(w, &mut stage) {
+        n += 1;
+        used += 1;
+        if used > budget {
+            // not converged within the bound: `finish` reports which member is behind
+            break;
+        }
+        let s = Step { n, a };
+        let done = w.exec(&s)?;
+        if !done {
+            // an action the heal planner believes enabled was skipped: planner / model mismatch
+            return Err(Violation::new(
+                "HARNESS",
+                "heal",
+                "heal-skip".into(),
+                format!("heal action {:?} was not enabled", s.a),
+            ));
         }
     }
     crate::scenarios::finish(w)?;
